@@ -548,6 +548,9 @@ func (r *runner) biter(h int, dir string, n, pos int) {
 	r.emit(rec, func() (interface{}, bool) {
 		if b.big != nil {
 			s := make([]int64, L)
+			if L == 0 && pos%2 == 0 {
+				s = nil // a zero-length slice is nil now and then
+			}
 			for i := range s {
 				s[i] = sent
 			}
@@ -560,6 +563,9 @@ func (r *runner) biter(h int, dir string, n, pos int) {
 			return lazy(func() interface{} { return tr.E{"c": c, "out": numsI64(s)} }), false
 		}
 		s := make([]uint32, L)
+		if L == 0 && pos%2 == 0 {
+			s = nil
+		}
 		for i := range s {
 			s[i] = uint32(sent)
 		}
@@ -588,6 +594,9 @@ func (r *runner) lgetn(kind string, hs []int, dir string, n int) {
 	r.emit(tr.E{"op": "lgetn", "kind": kind, "hs": hs, "dir": dir, "n": n}, func() (interface{}, bool) {
 		if kind == "big" {
 			var l bmp.BigU32s
+			if len(hs) == 0 && n%2 == 1 {
+				l = bmp.BigU32s{} // empty but not nil
+			}
 			for _, h := range hs {
 				l = append(l, r.blk[h-1].big)
 			}
@@ -597,6 +606,9 @@ func (r *runner) lgetn(kind string, hs []int, dir string, n int) {
 			return lzI64(l.GetNAsI64(n)), false
 		}
 		var l bmp.U32BitTips
+		if len(hs) == 0 && n%2 == 1 {
+			l = bmp.U32BitTips{}
+		}
 		for _, h := range hs {
 			l = append(l, r.blk[h-1].tip)
 		}
@@ -621,6 +633,8 @@ type pact struct {
 	Ms    []int  `json:"ms"`
 	Bytes []int  `json:"bytes"`
 	Start []int  `json:"start"`
+	Lo    int    `json:"lo"`
+	Cnt   int    `json:"cnt"`
 	Nh    int    `json:"nh"`
 }
 
@@ -666,6 +680,8 @@ func (r *runner) runPlan(p []pact, i int) {
 				buf[j] = byte(x)
 			}
 			r.unmarshal(buf, vias[(i+k)%3], false)
+		case "bsetrun":
+			r.bsetrun(a.H, a.Lo, a.Cnt)
 		case "bnew0":
 			r.bnew0(a.H, a.Kind)
 		case "bdata":
@@ -705,6 +721,9 @@ func (r *runner) randMembers(n int) []int {
 
 func (r *runner) roundTrips(extra int) {
 	counts := []int{0, 1, 2, 3, 31, 62, 63, 64, 65, 66, 100, 127, 128, 129, 512, 1000, 1022, 1023, 1024}
+	for i := 0; i < 3; i++ { // around the multiples of the word size
+		counts = append(counts, 64*(2+r.rng.Intn(14))+r.rng.Intn(3)-1)
+	}
 	for i := 0; i < extra; i++ {
 		switch r.rng.Intn(3) {
 		case 0:
@@ -776,6 +795,9 @@ func (r *runner) arbitraryBytes(per int) {
 		// the caller's buffer is one reused region, overwritten right after the call
 		buf := r.pool[:len(src)]
 		copy(buf, src)
+		if len(src) == 0 && k%2 == 1 {
+			buf = nil // no bytes at all: nil as well as empty
+		}
 		r.reset(1, "bytes")
 		r.unmarshal(buf, vias[k%3], true)
 		k++
@@ -1221,6 +1243,90 @@ func (r *runner) repeats(tag string) {
 	r.force = 0
 }
 
+// bsetrun: cnt SetI64 / SetU32 calls with the block's own integers of the bits lo, lo+1, ... as ONE
+// run-length-encoded event; the reply is the number of calls that were refused (must be 0).
+func (r *runner) bsetrun(h, lo, cnt int) {
+	b := r.blk[h-1]
+	if !b.ok() || lo < 0 || cnt < 0 || lo+cnt > 1024 {
+		return
+	}
+	r.emit(tr.E{"op": "bsetrun", "h": h, "lo": lo, "cnt": cnt}, func() (interface{}, bool) {
+		refused := 0
+		base := int64(b.start()) * 1024
+		for m := lo; m < lo+cnt; m++ {
+			var err error
+			if b.big != nil {
+				err = b.big.SetI64(base + int64(m))
+			} else {
+				err = b.tip.SetU32(uint32(base + int64(m)))
+			}
+			if err != nil {
+				refused++
+			}
+		}
+		return refused, false
+	})
+}
+
+// bloadmany: many blocks built by the harness (struct literals), one event.
+func (r *runner) bloadmany(kind string, hs []int, starts []uint32, mss [][]int) {
+	sd := make([][]int, len(starts))
+	for i, st := range starts {
+		sd[i] = startDigits(st)
+	}
+	r.emit(tr.E{"op": "bloadmany", "kind": kind, "hs": hs, "starts": sd, "mss": mss}, func() (interface{}, bool) {
+		for i, h := range hs {
+			if kind == "big" {
+				r.blk[h-1] = &block{kind: kind, big: &bmp.BigU32{Start: starts[i], B1024: fromMembers(mss[i])}}
+			} else {
+				r.blk[h-1] = &block{kind: kind, tip: &bmp.U32BitTip{Start: starts[i], B1024: fromMembers(mss[i])}}
+			}
+		}
+		return 0, false
+	})
+}
+
+// longLists: lists of 255 / 256 / 257 (and a few other lengths) blocks, some of them empty, read in
+// both directions with n below, at and above the total; a block filled by a run of 1024 Set calls.
+func (r *runner) longLists(kind string) {
+	k := []int{255, 256, 257, 2, 64, 65, 300}[r.rng.Intn(7)]
+	r.reset(k+1, "longlist")
+	hs := make([]int, k)
+	starts := make([]uint32, k)
+	mss := make([][]int, k)
+	total := 0
+	base := uint32(r.rng.Intn(1 << 20))
+	for i := range hs {
+		hs[i] = i + 1
+		starts[i] = base + uint32(i)
+		switch r.rng.Intn(4) {
+		case 0:
+			mss[i] = []int{} // an empty block inside the list
+		case 1:
+			mss[i] = []int{r.rng.Intn(1024)}
+		default:
+			mss[i] = r.randMembers(1 + r.rng.Intn(3))
+		}
+		total += len(mss[i])
+	}
+	r.bloadmany(kind, hs, starts, mss)
+	for _, dir := range []string{"f", "r"} {
+		r.lgetn(kind, hs, dir, []int{total - 1, total, total + 1, 255, 256, 257, 1}[r.rng.Intn(7)])
+	}
+	r.lgetn(kind, hs[:1+r.rng.Intn(k)], []string{"f", "r"}[r.rng.Intn(2)], total+3)
+	// the spare handle: an empty block, filled to the brim by Set calls, in runs around 255/256/257
+	r.bnew0(k+1, kind)
+	r.lgetn(kind, []int{k + 1, 1, k + 1}, "f", 5) // empty blocks around a non-empty one
+	cut := []int{255, 256, 257, 63, 64, 65, 1023}[r.rng.Intn(7)]
+	r.bsetrun(k+1, 0, cut)
+	r.bgetn(k+1, []string{"f", "r"}[r.rng.Intn(2)], cut+1)
+	r.bsetrun(k+1, cut, 1024-cut)
+	r.bgetn(k+1, []string{"f", "r"}[r.rng.Intn(2)], 1025)
+	r.brev(k+1, k+1) // emptied: the complement of a full block
+	r.bgetn(k+1, "f", 3)
+	r.lgetn(kind, []int{k + 1, 2, k + 1}, "r", 7)
+}
+
 func main() {
 	plans := flag.String("plans", "", "directory of TLC-generated plans")
 	out := flag.String("out", "codec.ndjson", "traces")
@@ -1258,6 +1364,9 @@ func main() {
 	r.repeats("start")
 	r.roundTrips(*nrt)
 	r.repeats("middle")
+	for i := 0; i < 2+*nblk/30; i++ {
+		r.longLists([]string{"big", "tip"}[i%2])
+	}
 	r.arbitraryBytes(*per)
 	for _, v := range bigBoundary {
 		r.blockScenario("big", v, "big")
